@@ -145,9 +145,15 @@ type dump struct {
 	Known      []string         `json:"known_lines"`
 }
 
+// Begin must be called first in every top-level harness test; it makes the
+// collectors be written out when the test ends.  (Harness files cannot define
+// TestMain, most packages of the repository already have one.)
+func Begin(t interface{ Cleanup(func()) }) {
+	t.Cleanup(Flush)
+}
+
 // Flush writes all collectors of this process to the file named by
-// VERIF_STATS_OUT (one JSON document: list of per-property dumps).  It is
-// called from TestMain of each harness package.
+// VERIF_STATS_OUT (one JSON document: list of per-property dumps).
 func Flush() {
 	path := os.Getenv("VERIF_STATS_OUT")
 	if path == "" {
